@@ -161,6 +161,29 @@ func c13Shallow(d *ring.Desc) *ring.Desc {
 	return &ring.Desc{Ingesters: maps.Clone(d.Ingesters)} // token slices and version maps shared
 }
 
+// c13Stored turns a descriptor into what the KV store holds when (some) instances were registered by an
+// older lifecycler / a struct literal: InstanceDesc.Id is empty and the map key alone is the id
+// (mode 0: every instance carries its Id; 1: none does; 2: those with an even numeric suffix do not).
+// The case line always records the map keys, and the model's instances always carry id = map key
+// (the model of setInstanceIDs), so an answer with an empty Id disagrees with both the fresh client
+// and the model.
+func c13Stored(d *ring.Desc, mode int) *ring.Desc {
+	if mode == 0 {
+		return d
+	}
+	for k, i := range d.Ingesters {
+		strip := mode == 1
+		if mode == 2 && len(k) > 0 && (k[len(k)-1]-'0')%2 == 0 {
+			strip = true
+		}
+		if strip {
+			i.Id = ""
+			d.Ingesters[k] = i
+		}
+	}
+	return d
+}
+
 func c13CmpCode(c ring.CompareResult) string {
 	switch c {
 	case ring.Equal:
@@ -222,12 +245,17 @@ func c13Hist(e *env, r *rng) {
 	mkCfg := func(cacheOff bool) ring.Config {
 		return ring.Config{ReplicationFactor: rf, ZoneAwarenessEnabled: za, HeartbeatTimeout: c13Timeout, SubringCacheDisabled: cacheOff}
 	}
-	long, err := ring.VerifNewRing(mkCfg(false), c13Shallow(cur), nil)
+	idMode := pick(r, []int{0, 0, 1, 2})
+	kindSfx := ""
+	if idMode != 0 {
+		kindSfx = "~noid"
+	}
+	long, err := ring.VerifNewRing(mkCfg(false), c13Stored(c13Shallow(cur), idMode), nil)
 	if err != nil {
 		panic(err)
 	}
 	var steps, longA, freshA []string
-	steps = append(steps, "U!init!"+encDesc(cur))
+	steps = append(steps, "U!init"+kindSfx+"!"+encDesc(cur))
 	longA = append(longA, "D")
 	freshA = append(freshA, "D")
 	if len(cur.Ingesters) == 0 {
@@ -344,11 +372,11 @@ func c13Hist(e *env, r *rng) {
 			if nd == nil {
 				// pass the object the client already holds: rebuild an equal shallow clone instead of
 				// aliasing the harness' copy (the client owns what it was given)
-				long.VerifUpdateRingState(c13Shallow(cur))
+				long.VerifUpdateRingState(c13Stored(c13Shallow(cur), idMode))
 			} else {
-				long.VerifUpdateRingState(c13Shallow(cur))
+				long.VerifUpdateRingState(c13Stored(c13Shallow(cur), idMode))
 			}
-			steps = append(steps, "U!"+kind+"!"+encDesc(cur))
+			steps = append(steps, "U!"+kind+kindSfx+"!"+encDesc(cur))
 			longA = append(longA, cmp)
 			freshA = append(freshA, cmp)
 			continue
@@ -394,7 +422,7 @@ func c13Hist(e *env, r *rng) {
 		if q[1] == "G" && (rf != 1) {
 			q = []string{"Q", "X", "W", q[2]}
 		}
-		fresh, err := ring.VerifNewRing(mkCfg(true), cloneDesc(cur), nil)
+		fresh, err := ring.VerifNewRing(mkCfg(true), c13Stored(cloneDesc(cur), idMode), nil)
 		if err != nil {
 			panic(err)
 		}
